@@ -20,7 +20,7 @@ Definition lin_group (nodes : list lnode) (d : nat) :=
 
 Lemma lin_node_sub nodes d cc c :
   lin_node nodes d (TSub cc) c =
-  (c <? 65532) && (d <? 4)%nat && group_shape None cc &&
+  ((c <? 65532) && (c + N.of_nat (length cc) <=? 65532)) && (d <? 4)%nat && group_shape None cc &&
   (match d with O => c =? 0 | S _ => 0 <? c end) && lin_group nodes d cc (N.to_nat c).
 Proof. reflexivity. Qed.
 
@@ -51,19 +51,27 @@ Proof.
   - destruct (IH (S cur) Hr i h n' Hi) as [ln' H']. exists ln'. rewrite Nat.add_succ_r. exact H'.
 Qed.
 
-(* the inner scan finds the node of the child that find_child selects *)
+Lemma cur_succ_small cur : N.of_nat (S cur) < 65536 -> cur_succ cur = S cur.
+Proof. intro H. unfold cur_succ. rewrite N.mod_small by assumption. apply Nat2N.id. Qed.
+
+(* the inner scan finds the node of the child that find_child selects; the uint16 cursor does
+   not wrap because the group ends below the special child values *)
 Lemma scan_find nodes d b : forall cc cur fuel n',
   lin_group nodes d cc cur = true -> find_child b cc = Some n' -> (length cc <= fuel)%nat ->
-  exists ln idx, scan_nodes fuel nodes cur b = Some (ln, idx) /\ lin_node nodes (S d) n' (child ln) = true.
+  N.of_nat (cur + length cc) <= 65532 ->
+  exists ln idx, scan_nodes fuel nodes cur b = Some (ln, idx) /\ lin_node nodes (S d) n' (child ln) = true /\
+                 (cur <= idx < cur + length cc)%nat.
 Proof.
-  induction cc as [|[h0 n0] r IH]; intros cur fuel n' H Hf Hfuel; [discriminate|].
+  induction cc as [|[h0 n0] r IH]; intros cur fuel n' H Hf Hfuel Hend; [discriminate|].
   rewrite lin_group_cons in H. destruct (nth_error nodes cur) as [ln|] eqn:E; [|discriminate].
   rewrite !andb_true_iff in H. destruct H as [[Hb Hn] Hr]. apply N.eqb_eq in Hb.
   destruct fuel as [|fuel]; [cbn in Hfuel; lia|].
-  cbn [find_child] in Hf. cbn [scan_nodes]. rewrite E, Hb.
+  cbn [find_child] in Hf. cbn [scan_nodes]. rewrite E, Hb. cbn [length] in Hend, Hfuel.
   destruct (b <=? h0).
-  - inversion Hf; subst. exists ln, cur. auto.
-  - apply (IH (S cur) fuel n' Hr Hf). cbn in Hfuel. lia.
+  - inversion Hf; subst. exists ln, cur. split; [reflexivity|]. split; [assumption|]. cbn [length]. lia.
+  - rewrite cur_succ_small by lia.
+    destruct (IH (S cur) fuel n' Hr Hf ltac:(lia) ltac:(lia)) as (ln' & idx & Hs & Hl & Hi).
+    exists ln', idx. split; [assumption|]. split; [assumption|]. cbn [length]. lia.
 Qed.
 
 Lemma group_shape_find b : forall cc prev, group_shape prev cc = true ->
@@ -110,20 +118,20 @@ Qed.
 
 (* ---------- the linearised lookup simulates the tree ---------- *)
 Lemma ldecode_sim nodes : forall s cc cur d fuel code,
-  lin_group nodes d cc cur = true -> group_shape None cc = true -> (d < 4)%nat ->
+  lin_group nodes d cc cur = true -> group_shape None cc = true -> N.of_nat (cur + length cc) <= 65532 -> (d < 4)%nat ->
   wfbs s = true -> (length s < fuel)%nat ->
   ldecode fuel nodes cur s code d =
     Some (N.lor code (le_at d (firstn (fst (tdecode cc s d) - d) s)),
           fst (tdecode cc s d), snd (tdecode cc s d)) /\
   (fst (tdecode cc s d) <= 4)%nat.
 Proof.
-  induction s as [|b s' IH]; intros cc cur d fuel code Hg Hsh Hd Hwf Hfuel;
+  induction s as [|b s' IH]; intros cc cur d fuel code Hg Hsh Hend Hd Hwf Hfuel;
     (destruct fuel as [|fuel]; [cbn in Hfuel; lia|]).
   - cbn [ldecode tdecode fst snd]. rewrite Nat.sub_diag. cbn [firstn le_at]. rewrite N.lor_0_r. split; [reflexivity|lia].
   - cbn [wfbs forallb] in Hwf. apply andb_true_iff in Hwf as [Hb Hwf']. unfold wfb in Hb.
     destruct (group_shape_find b cc None Hsh) as [n' Hf]; [intros p Hp; discriminate|apply N.ltb_lt; exact Hb|].
     pose proof (group_shape_length cc None Hsh) as Hlen. cbv iota beta in Hlen.
-    destruct (scan_find nodes d b cc cur 257 n' Hg Hf ltac:(lia)) as (ln & idx & Hscan & Hn).
+    destruct (scan_find nodes d b cc cur 257 n' Hg Hf ltac:(lia) Hend) as (ln & idx & Hscan & Hn & _).
     cbn [ldecode tdecode]. rewrite Hscan, Hf.
     destruct n' as [k| |cc'].
     + (* invalid: consume up to k further bytes *)
@@ -143,7 +151,7 @@ Proof.
       apply Nat.ltb_lt in Hd'.
       replace (child ln =? 0) with false by lia. replace (65532 <=? child ln) with false by lia.
       cbn [length] in Hfuel.
-      destruct (IH cc' (N.to_nat (child ln)) (S d) fuel (N.lor code (N.shiftl b (8 * N.of_nat d))) Hg' Hsh' Hd' Hwf' ltac:(lia))
+      destruct (IH cc' (N.to_nat (child ln)) (S d) fuel (N.lor code (N.shiftl b (8 * N.of_nat d))) Hg' Hsh' ltac:(lia) Hd' Hwf' ltac:(lia))
         as [-> H4].
       split; [|assumption].
       pose proof (tdecode_ge s' cc' (S d)) as Hge.
@@ -161,6 +169,40 @@ Proof.
   intros nodes t H s Hwf. unfold lin_ok in H. rewrite lin_node_sub in H.
   rewrite !andb_true_iff in H. destruct H as [[[[Hc Hd] Hsh] Hpos] Hg].
   unfold decode, le_code.
-  destruct (ldecode_sim nodes s t 0 0 (S (length s)) 0 Hg Hsh ltac:(lia) Hwf ltac:(lia)) as [-> H4].
+  destruct (ldecode_sim nodes s t 0 0 (S (length s)) 0 Hg Hsh ltac:(lia) ltac:(lia) Hwf ltac:(lia)) as [-> H4].
   rewrite Nat.sub_0_r, N.lor_0_l. split; [reflexivity|assumption].
+Qed.
+
+(* wrap-freedom: every scan of Decode on a validated array stops at an index below the first
+   special child value 65532 = 2^16 - 4, so the uint16 cursor never reaches 65535, let alone wraps *)
+Lemma ldecode_idx_bound nodes : forall s cc cur d fuel,
+  lin_group nodes d cc cur = true -> group_shape None cc = true -> N.of_nat (cur + length cc) <= 65532 ->
+  wfbs s = true ->
+  Forall (fun i : nat => N.of_nat i < 65532) (ldecode_idx fuel nodes cur s).
+Proof.
+  induction s as [|b s' IH]; intros cc cur d fuel Hg Hsh Hend Hwf; destruct fuel as [|fuel]; try (constructor; fail).
+  cbn [wfbs forallb] in Hwf. apply andb_true_iff in Hwf as [Hb Hwf']. unfold wfb in Hb.
+  destruct (group_shape_find b cc None Hsh) as [n' Hf]; [intros p Hp; discriminate|apply N.ltb_lt; exact Hb|].
+  pose proof (group_shape_length cc None Hsh) as Hlen. cbv iota beta in Hlen.
+  destruct (scan_find nodes d b cc cur 257 n' Hg Hf ltac:(lia) Hend) as (ln & idx & Hscan & Hn & Hidx).
+  cbn [ldecode_idx]. rewrite Hscan.
+  assert (Hi : N.of_nat idx < 65532) by lia.
+  destruct (child ln =? 0) eqn:E0; [constructor; [assumption|constructor]|].
+  destruct (65532 <=? child ln) eqn:E; [constructor; [assumption|constructor]|].
+  constructor; [assumption|].
+  destruct n' as [k| |cc'].
+  - rewrite lin_node_invalid in Hn. rewrite !andb_true_iff in Hn. destruct Hn as [[Hk Hc] _].
+    apply Nat.leb_le in Hk. apply N.eqb_eq in Hc. exfalso. clear IH. lia.
+  - rewrite lin_node_leaf in Hn. rewrite andb_true_iff in Hn. destruct Hn as [Hc _]. apply N.eqb_eq in Hc. exfalso. clear IH. lia.
+  - rewrite lin_node_sub in Hn. rewrite !andb_true_iff in Hn. destruct Hn as [[[[Hc Hd'] Hsh'] Hpos] Hg'].
+    apply (IH cc' (N.to_nat (child ln)) (S d) fuel Hg' Hsh'); [lia|assumption].
+Qed.
+
+Theorem decode_cursor_bound_lemma : forall nodes t, lin_ok nodes t = true ->
+  forall s, wfbs s = true ->
+  Forall (fun i : nat => N.of_nat i < 65532) (ldecode_idx (S (length s)) nodes 0 s).
+Proof.
+  intros nodes t H s Hwf. unfold lin_ok in H. rewrite lin_node_sub in H.
+  rewrite !andb_true_iff in H. destruct H as [[[[Hc Hd] Hsh] Hpos] Hg].
+  apply (ldecode_idx_bound nodes s t 0 0 _ Hg Hsh); [lia|assumption].
 Qed.
